@@ -496,7 +496,9 @@ func (e *Executor) LoadDependencyOutputs(
 		)
 		loadErr := e.registry.LoadOutputs(ctx, localDep, targetResult, progress)
 
-		if loadErr != nil || localDep.SkipsCache() {
+		// no-cache dependencies are executed by every build: only re-run them if that has not
+		// happened yet in this build (i.e. their outputs are not in the workspace)
+		if loadErr != nil || (localDep.SkipsCache() && !localDep.OutputsLoaded) {
 			logger.Debugf(
 				"%s: failed to load output for dependency %s (re-rerunning): err=%v no-cache=%t",
 				target.Label,
